@@ -15,6 +15,7 @@ inductive Sink where
   | insertTo (w j : Nat)
   | lazyTo (w k : Nat)
   | swapVal (ty : Nat)
+  | info
   deriving Repr, DecidableEq
 
 inductive Src where
@@ -65,6 +66,18 @@ inductive Op where
   | shrinkTo (v n : Nat)
   | release
   | dropVec (v : Nat)
+  | info (v : Nat)
+  | dcvec (v ty : Nat)
+  | wswap (v i ty : Nat)
+  | tassign (v i : Nat)
+  | swapb (v i j : Nat)
+  | tswap (v i j : Nat)
+  | eswap (v i w j : Nat)
+  | probe (v : Nat)
+  | views (v : Nat)
+  | setLenSpare (v k : Nat) (typed : Bool)
+  | rawrt (v : Nat)
+  | rawparts (v : Nat)
   deriving Repr
 
 /-- per-case configuration: every element type of a case has this layout -/
@@ -182,6 +195,10 @@ def sinkHandle (cfg : Cfg) (h : Handle) (k : Sink) : WM Out :=
       WM.onUnwind (pushTimes w (.lazyHandle h) n) (hDrop h)
       hDrop h
       pure []
+  | .info => do
+    let x ← getVec h.v
+    hDrop h
+    pure ["t" ++ toString x.ty, "s" ++ toString x.size]
   | .swapVal ty => do
     let x ← getVec h.v
     let fid ← fresh
@@ -233,6 +250,10 @@ def sinkElem (cfg : Cfg) (v slot : Nat) (typed : Bool) (k : Sink) : WM Out := do
       WM.onUnwind (pushTimes w (.lazyElem v slot) n) (dropElem x.hasDrop id)
       dropElem x.hasDrop id
       pure [cfg.tok id]
+  | .info => do
+    let id ← readElem v slot
+    dropElem x.hasDrop id
+    pure [cfg.tok id, "t" ++ toString x.ty, "s" ++ toString x.size]
   | .swapVal ty => do
     if typed then WM.ub "bad-op: swapVal on a typed item" else
     let fid ← fresh
@@ -513,7 +534,111 @@ def step (cfg : Cfg) (op : Op) : WM Out :=
     WM.modify fun w => { w with held := [] }
     releaseGo cfg.hasDrop w.held.reverse
     pure []
-  | .dropVec v => do dropVec v; pure []
+  | .dropVec v => do
+    -- dropping a vector that never came to life (its construction panicked) is a no-op of the script
+    let w ← WM.get
+    match w.vecs[v]? with
+    | some x => if x.live then do dropVec v; pure [] else pure []
+    | none => pure []
+  | .info v => do
+    let x ← getVec v
+    pure ["t" ++ toString x.ty, "s" ++ toString x.size, "a" ++ toString x.align, "l" ++ toString x.len,
+          "c" ++ toString x.cap, "e" ++ (if x.len = 0 then "1" else "0"), "d" ++ (if x.hasDrop then "1" else "0")]
+  | .dcvec v ty => do
+    let x ← getVec v
+    pure (if ty = x.ty then ["rS", "mS"] else ["rN", "mN"])
+  | .wswap v i ty => do
+    let x ← getVec v
+    if i < x.len then do
+      let fid ← fresh
+      if ty ≠ x.ty then
+        WM.onUnwind (WM.panic "assertion `left == right` failed") (dropElem cfg.hasDrop fid)
+      else do
+        let old ← readElem v i
+        writeCell v i (.val fid)
+        dropElem cfg.hasDrop old
+        pure [cfg.tok old]
+    else WM.panic "called `Option::unwrap()` on a `None` value"
+  | .tassign v i => do
+    let x ← getVec v
+    let fid ← fresh
+    if i < x.len then do
+      let old ← readElem v i
+      -- `*slot = new`: the old value is dropped, then the new one is moved in
+      WM.onUnwind (dropElem x.hasDrop old) (writeCell v i (.val fid))
+      writeCell v i (.val fid)
+      pure []
+    else
+      WM.onUnwind (WM.panic "called `Option::unwrap()` on a `None` value") (dropElem cfg.hasDrop fid)
+  | .swapb v i j => do
+    let x ← getVec v
+    if i < x.len ∧ j < x.len then do
+      let a := x.cells.get i
+      let b := x.cells.get j
+      writeCell v i b
+      writeCell v j a
+      pure []
+    else WM.ub "bad-op: swapb out of range"
+  | .tswap v i j => do
+    let x ← getVec v
+    if i < x.len ∧ j < x.len then do
+      let a := x.cells.get i
+      let b := x.cells.get j
+      writeCell v i b
+      writeCell v j a
+      pure []
+    else WM.panic "index out of bounds"
+  | .eswap v i w j => do
+    let x ← getVec v
+    let y ← getVec w
+    if v = w then WM.ub "bad-op: eswap within one vector" else
+    if i < x.len then
+      if j < y.len then
+        if x.ty ≠ y.ty then WM.panic "assertion `left == right` failed"
+        else do
+          let a := x.cells.get i
+          let b := y.cells.get j
+          writeCell v i b
+          writeCell w j a
+          pure []
+      else WM.panic "called `Option::unwrap()` on a `None` value"
+    else WM.panic "called `Option::unwrap()` on a `None` value"
+  | .probe v => do
+    let x ← getVec v
+    let ids := (x.abs.map fun c => match c with | .val id => cfg.tok id | .uninit => "?")
+    let s := if cfg.size = 0 then "z" ++ toString x.len else (if ids.isEmpty then "-" else String.intercalate "." ids)
+    pure [s, s, s]
+  | .views v => do
+    let x ← getVec v
+    pure ["b" ++ toString (x.len * x.size), "s" ++ toString ((x.cap - x.len) * x.size),
+          "o" ++ toString (x.len * x.size), "sc" ++ toString (x.cap - x.len),
+          "so" ++ toString (x.len * x.size), "al0", "ts1", "tl" ++ toString x.len]
+  | .setLenSpare v k _ => do
+    let x ← getVec v
+    if x.len + k ≤ x.cap then do
+      let rec go : Nat → Nat → WM Unit
+        | _, 0 => pure ()
+        | i, n+1 => do
+          let id ← fresh
+          writeCell v i (.val id)
+          go (i + 1) n
+      go x.len k
+      setLen v (x.len + k)
+      pure []
+    else WM.ub "bad-op: set_len beyond capacity"
+  | .rawrt v => do
+    let x ← getVec v
+    match x.bk with
+    | .heap | .empty | .reloc => pure []
+    | _ => WM.ub "bad-op: raw parts on this backend (does not type-check)"
+  | .rawparts v => do
+    let x ← getVec v
+    match x.bk with
+    | .heap | .empty | .reloc =>
+      let fields := ["l" ++ toString x.len, "c" ++ toString x.cap, "s" ++ toString x.size,
+                     "a" ++ toString x.align, "t" ++ toString x.ty, "d" ++ (if x.hasDrop then "1" else "0")]
+      pure (fields ++ fields)
+    | _ => WM.ub "bad-op: raw parts on this backend (does not type-check)"
 
 /-- one script step: the library call(s), then the caller destroys the raw values the library
 did not take -/
